@@ -1106,8 +1106,6 @@ stream_encoder_mt_init(lzma_next_coder *next, const lzma_allocator *allocator,
 
 	// Basic initializations
 	coder->sequence = SEQ_STREAM_HEADER;
-	coder->block_size = (size_t)(block_size);
-	coder->outbuf_alloc_size = (size_t)(outbuf_size_max);
 	coder->thr = NULL;
 
 	// Allocate the thread-specific base structures.
@@ -1144,10 +1142,13 @@ stream_encoder_mt_init(lzma_next_coder *next, const lzma_allocator *allocator,
 		}
 	}
 
-	// This must be done after the threads have been stopped or ended.
+	// These must be done after the threads have been stopped or ended.
 	// Otherwise a worker thread from the previous use of this coder
-	// could still set an error which would then be returned to
-	// the application by the first lzma_code() call of the new session.
+	// could still read coder->block_size, or it could still set
+	// an error which would then be returned to the application by
+	// the first lzma_code() call of the new session.
+	coder->block_size = (size_t)(block_size);
+	coder->outbuf_alloc_size = (size_t)(outbuf_size_max);
 	coder->thread_error = LZMA_OK;
 
 	// Output queue
